@@ -149,7 +149,7 @@ def send (env : Env σ) (r : Record) : M (WP σ) Unit := do
       | [c] => match c.offset with
         | .ok _ => pure ()
         | .error code => M.fail (.kafka code)
-      | _ => M.panic "producer.rs:277 assert_eq"
-    | _ => M.panic "producer.rs:274 assert_eq"
+      | _ => M.fail .codec     -- not exactly one partition confirmed (an assertion before the repair)
+    | _ => M.fail .codec       -- not exactly one topic confirmed
 
 end Kafka.Model
